@@ -58,7 +58,7 @@ def env_model(keys, env, proc):
 
 VERSIONS = ['3', '3.8', '3.8.0', '3.8.1', '3.9', '3.10', '3.0', '4', '2.7', '3.8.0.0', '3.7.2', '0', '3.8.10', '3.11.0']
 VERSIONS_ODD = ['3.8a1', '3.8.post1', '3.8.dev1', '1!3.8', '3.8rc2', '3.9.0b1']
-STRVALS = ['a', 'b', 'ab', '', 'linux', 'win32', 'posix', 'nt', 'darwin', 'é', 'a b', 'x86_64', 'Linux', 'aa', 'a\x00']
+STRVALS = ['a', 'b', 'ab', '', 'linux', 'win32', 'posix', 'nt', 'darwin', 'é', 'a b', 'x86_64', 'Linux', 'aa', 'a\x00', "it's", 'say "hi"']
 EXTRAS = ['a', 'b', 'c', 'A_b', 'a.b', 'dev', 'x-y']
 BAD_EXTRAS = ['a b', '-a', 'é']
 VOPS = ['==', '!=', '<', '<=', '>', '>=', '~=']
